@@ -11,7 +11,7 @@ from multiprocessing import Pool
 
 HOST = "hh"
 STG = ".copia-tmp"
-SEC_POOL = [0, 1, 1_700_000_000, 2**31 - 1, 2**31, 2**32 + 1, 2**33, 1_600_000_000, 946684800]
+SEC_POOL = [-86400, -5, 0, 1, 1_700_000_000, 2**31 - 1, 2**31, 2**32 + 1, 2**33, 1_600_000_000, 946684800]
 NS = {0: 0, 1: 999_999_999}
 _W = {}
 
